@@ -272,6 +272,13 @@ package server
 // from C12 "Stale routes disappear exactly when the restart timer expires without re-establishment": while the peer
 // is restarting, the retained routes are dropped (or the long-lived phase started) for no other reason than the
 // expiry of the restart timer - a reconnection attempt that fails inside the window is not one
+//@ props C09
+//@ func clearedNeighborState
+//@   requires conf != nil
+//@   modifies nothing
+//@   ensures result.NeighborAddress == conf.Config.NeighborAddress && result.PeerAs == conf.Config.PeerAs && result.LocalAs == conf.Config.LocalAs && result.PeerType == conf.Config.PeerType
+//@   ensures conf.Config.PeerType == oc.PEER_TYPE_EXTERNAL ==> result.RemovePrivateAs == conf.Config.RemovePrivateAs
+//@ props C12
 //@ func (*BgpServer).handleFSMMessage
 //@   tag C12 C09
 //@   claims at-call
